@@ -683,6 +683,17 @@ func (f *frame) specCall(x *SCall, env *specEnv) sval {
 		}
 		specFail("unknown type in %s", x.Fun)
 	}
+	if x.Fun == "boxed" && len(x.Args) == 1 {
+		// boxed(p): the interface value that holds the pointer p (what MakeInterface produces)
+		v := arg(0)
+		if v.typ == nil {
+			specFail("boxed: untyped argument")
+		}
+		if _, ok := v.typ.Underlying().(*types.Pointer); !ok {
+			specFail("boxed: %s is not a pointer", v.typ)
+		}
+		return sval{e: t.boxPtr(v.e, t.eng.typeID(v.typ)), typ: types.NewInterfaceType(nil, nil)}
+	}
 	if x.Fun == "is_nil_iface" {
 		return sval{e: Eq(arg(0).e, th.AddrLit(0)), typ: boolT}
 	}
